@@ -195,7 +195,7 @@ def ref_binomial_ci(count, nobs, alpha):
     if nobs == 0:
         return (math.nan, math.nan)
     p = count / nobs
-    z = ND.inv_cdf(1 - alpha / 2.0)
+    z = -ND.inv_cdf(alpha / 2.0)  # upper tail via symmetry: 1 - alpha/2 would lose tiny alphas to rounding
     d = z * math.sqrt(p * (1 - p) / nobs)
     return (p - d, p + d)
 
